@@ -12,6 +12,8 @@ CHECKS = {
  "C06": ("Real Finalize on programs built through the public API (templates covering forward/backward/multiple/missing/duplicate references and distances around -128/+127), symbolic base and data, all map iteration orders; the harness' own bookkeeping is the oracle.", TRUST + "Bounded: <= 2 labels, <= 3 references per label, <= 7 calls.", "§6 C06"),
  "C07": ("Inductive step: one emitter call followed by one real CPU Step from a state tied to the emitter only by the invariant (same PC, same widths); operands, flags and the rest of the CPU symbolic; both interpreters.", TRUST, "§6 C07"),
  "C08": ("Every implicit Go runtime check inside Step (index, slice, nil, type assertion, explicit panic) is a solver-decided fork from an arbitrary state; passes only if no failure path is feasible.", TRUST + "Backends of exactly 2^24 bytes make 'no failure' imply 'every access below 2^24'.", "§6 C08"),
+ "C09": ("Real NewROM/ReadHeader/WriteHeader (reflection-driven walker executed for real, reflect/encoding-binary by documented contract) on a fully symbolic image: round trip, 80-byte serialisation, every field at its documented address, version rule.", TRUST + "Oracle: SNES header layout (DESIGN Appendix C). Image sizes 32 KiB..4 MiB enumerated.", "§6 C09"),
+ "C10": ("Real BusReader/BusWriter and bytes.Reader on a symbolic image with a fully symbolic bus address and short read/write sequences; counts, errors, delivered bytes and the whole image compared with the contract applied to the harness' copy.", TRUST + "The unreachable last byte of each bank is a listed open finding (pinned by a baseline test).", "§6 C10"),
  "C12": ("Step lemma and callback obligations per opcode over an arbitrary state; the real RunUntil loop run symbolically over short programs with symbolic target and budget.", TRUST + "RunUntil for programs beyond the unrolling bound rests on the Step lemma (cycles >= 1), argued not solver-checked.", "§6 C12"),
  "C19": ("Every instruction method and data blocks at capacities from ample down to 3 bytes short, refusal observed around the real call; dry-run twin compared after every call of short sequences.", TRUST + "Capacities 0..4 (thorough 0..6).", "§6 C19"),
  "C15": ("Real WriteHexTo/WriteTextTo on short call sequences with symbolic operands, data and base; listings parsed arithmetically and compared with the harness' own record of what was issued.", TRUST + "Bounded: sequences of <= 2 (thorough 3) calls.", "§6 C15"),
